@@ -80,6 +80,7 @@ def _print_Piecewise(
 ) -> tuple[tuple[str, ...], tuple[str, ...]]:
     from sympy.logic.boolalg import ITE, simplify_logic
     from sympy.core.relational import Relational
+    from sympy.functions.elementary.trigonometric import TrigonometricFunction
 
     def print_cond(cond):
         """Problem having an ITE in the cond."""
@@ -103,6 +104,13 @@ def _print_Piecewise(
                 lambda e: e.func(*[arg.doit() for arg in e.args]),
             )
         )
+        # sympy also solves the conditions for their variable, and for a periodic function
+        # it gives the solutions of one period only: 'c >= tan(x + 10)' became one interval
+        if any(
+            rel.has(TrigonometricFunction) and rel.free_symbols
+            for rel in expr.atoms(Relational)
+        ):
+            simplified = expr
     except Exception:
         simplified = expr
     if (
